@@ -307,10 +307,15 @@ func restServe(std bool, rep int, texts [][]string, together bool) string {
 			if together {
 				r.eval("T", strings.Join(forms, "\n")+"\n", record)
 			} else {
+				n := 0
 				for _, f := range forms {
+					if strings.TrimSpace(f) == "" {
+						continue // an empty token is no form
+					}
+					n++
 					r.eval("S", f+"\n", record)
 				}
-				if len(forms) == 0 {
+				if n == 0 {
 					r.eval("S", "", record)
 				}
 			}
